@@ -74,6 +74,7 @@ def check_jacobian(H, name, build, key, rels_extra=(), timeout=None, use_cert=Tr
     replay_fn(env) -> program callable on concrete tensors for numeric replay (finite differences are NOT used as oracle:
     the replay compares autograd with the numeric value of the symbolic oracle at the model point)."""
     results = []
+    solo_terms = {}
 
     def program(m):
         ins, fwd, okind, ogroup, concrete_prog = build(m)
@@ -88,6 +89,18 @@ def check_jacobian(H, name, build, key, rels_extra=(), timeout=None, use_cert=Tr
         grads = torch.autograd.grad(out_t, [v.tensor for v in ins], grad_outputs=g, allow_unused=True)
         gts = [m.full_terms(gr) if gr is not None else None for gr in grads]
         pts = [m.poisons(gr) if gr is not None and track_poison else None for gr in grads]
+        # configurations: the same program with only ONE input requiring grad (backward passes may consult needs_input_grad)
+        solo_terms.clear()
+        if len(ins) > 1:
+            for vi, v in enumerate(ins):
+                for w in ins:
+                    w.tensor.requires_grad_(w is v)
+                out2 = fwd()
+                out2_t = out2.tensor() if isinstance(out2, pp.LieTensor) else out2
+                gr2 = torch.autograd.grad(out2_t, [v.tensor], grad_outputs=g, allow_unused=True)[0] if out2_t.requires_grad else None
+                solo_terms[vi] = m.full_terms(gr2) if gr2 is not None else None
+            for w in ins:
+                w.tensor.requires_grad_(True)
         return ins, yt, okind, ogroup, gs, gts, pts, concrete_prog, m, out_t, grads
 
     for ctx, (ins, yt, okind, ogroup, gs, gts, pts, concrete_prog, m, out_t, grads) in run_paths(
@@ -101,7 +114,7 @@ def check_jacobian(H, name, build, key, rels_extra=(), timeout=None, use_cert=Tr
         nout = len(yt)
         allvars = [str(x) for v in ins for x in v.vars] + [str(x) for x in gs]
 
-        def mk_replay(vi, ins=ins, gs=gs, ctx=ctx, yt=yt):
+        def mk_replay(vi, ins=ins, gs=gs, ctx=ctx, yt=yt, solo=False):
             def replay(model):
                 if concrete_prog is None:
                     return False, 'no concrete replay'
@@ -114,7 +127,7 @@ def check_jacobian(H, name, build, key, rels_extra=(), timeout=None, use_cert=Tr
                         t = normalize_group(v.group, t)
                     for nm, val in zip(names_of(v.vars), t.tolist()):
                         env2[nm] = val
-                    tens.append(t.clone().requires_grad_(True))
+                    tens.append(t.clone().requires_grad_((not solo) or len(tens) == vi))
                 out = concrete_prog(*tens)
                 out = out.tensor() if isinstance(out, pp.LieTensor) else out
                 v = ins[vi]
@@ -126,14 +139,21 @@ def check_jacobian(H, name, build, key, rels_extra=(), timeout=None, use_cert=Tr
                 for kk in range(nk):
                     gten = torch.zeros(out.numel(), dtype=DT)
                     gten[kk] = 1.0
-                    gr = torch.autograd.grad(out, tens, grad_outputs=gten.view(out.shape), allow_unused=True, retain_graph=True)[vi]
+                    gr = torch.autograd.grad(out, [tens[vi]], grad_outputs=gten.view(out.shape), allow_unused=True, retain_graph=True)[0] \
+                        if out.requires_grad else None
                     if gr is None:
-                        return False, 'no gradient'
+                        continue        # no gradient returned: a zero row, judged against the numeric Jacobian below
                     if not torch.isfinite(gr).all():
                         return True, 'gradient contains NaN/Inf at %s' % {k: round(vv, 6) for k, vv in list(env2.items())[:12]}
                     Jag[kk] = gr.reshape(-1)[:n]
                     if gr.numel() > n:
                         pad = max(pad, gr.reshape(-1)[n:].abs().max().item())
+                # full-width cotangents (non-zero in the slot a group-valued output ignores): the padding slot must stay zero
+                if out.requires_grad and v.kind == 'group':
+                    for gten in (torch.ones(out.numel(), dtype=DT), torch.arange(1, out.numel() + 1, dtype=DT)):
+                        gr = torch.autograd.grad(out, [tens[vi]], grad_outputs=gten.view(out.shape), allow_unused=True, retain_graph=True)[0]
+                        if gr is not None and gr.numel() > n:
+                            pad = max(pad, gr.reshape(-1)[n:].abs().max().item())
                 # numeric Jacobian by central differences in the documented convention (used only to CONFIRM a solver
                 # counterexample on the real code, never to decide the property)
                 Jfd = torch.zeros(nk, n, dtype=DT)
@@ -168,9 +188,16 @@ def check_jacobian(H, name, build, key, rels_extra=(), timeout=None, use_cert=Tr
                 continue
             gt = gts[vi]
             if gt is None:
-                H.prove('%s/path%d/in%d/has-gradient' % (name, pn, vi), [], z3.BoolVal(False), key=key)
+                H.prove('%s/path%d/in%d/has-gradient' % (name, pn, vi), [], z3.BoolVal(False), key=key, replay=mk_replay(vi))
                 continue
             rp = mk_replay(vi)
+            if vi in solo_terms:
+                rps = mk_replay(vi, solo=True)
+                if solo_terms[vi] is None:
+                    H.prove('%s/path%d/in%d/only-this-input-requires-grad/has-gradient' % (name, pn, vi), [], z3.BoolVal(False), key=key, replay=rps)
+                else:
+                    for j, (a_, b_) in enumerate(zip(solo_terms[vi], gt)):
+                        H.prove('%s/path%d/in%d/only-this-input-requires-grad/grad[%d]' % (name, pn, vi, j), hyp, a_ == b_, key=key, replay=rps, timeout=10)
             nin = ADIM[v.group] if v.kind == 'group' else len(v.vars)
             # J_code[k][j] = d grad_j / d g_k  (grad is linear in g)
             Jc = [[diff(gt[j], gs[k]) for j in range(len(gt))] for k in range(nout)]
